@@ -45,6 +45,37 @@ theorem sl_run (i : Gen.Instr) (h : slInstr i = true) (c : Model.Context) (label
         | (simp only [Proofs.Mvp4.isRegisterChange_eq, pure, Except.pure, Proofs.Mvp4.ite_ok, Proofs.Mvp4.ite_pair, ite_self, bind, Except.bind, throw, throwThe, MonadExceptOf.throw] at hr
            (repeat' split at hr) <;> first | (injection hr with hr; subst hr; rfl) | (exact absurd hr (by simp)))
 
+theorem slr_memoryRead (i : Gen.Instr) (h : slrInstr i = true) (c : Model.Context) (seq : Word) : i.memoryRead c seq = [] := by
+  unfold slrInstr at h
+  cases i <;> unfold_instr at h ⊢ <;> first | rfl | (simp [isMemType] at h)
+
+set_option maxHeartbeats 4000000 in
+theorem slr_run (i : Gen.Instr) (h : slrInstr i = true) (c : Model.Context) (labels : GoMap String Word) (pc : Word)
+    (mem : List Byte) (seq : Word) (e : Gen.Execution) (hr : i.run c labels pc mem seq = .ok e) :
+    e.MemoryChange = false ∧ e.PcChange = false ∧ (e.Return = true → (i.instructionType == Gen.InstructionType.Ret) = true) := by
+  have hs := Proofs.Mvp4.run_shape i c labels pc mem seq e hr
+  have hpc : e.PcChange = false := by
+    cases hp : e.PcChange with
+    | false => rfl
+    | true =>
+      have := hs.pcBranch hp
+      simp only [slrInstr, Bool.and_eq_true, Bool.not_eq_true', Gen.InstructionType.IsBranch] at h
+      simp only [Proofs.Mvp4.isBranchType, h.2] at this
+      cases this
+  unfold slrInstr at h
+  refine ⟨?_, hpc, ?_⟩
+  · cases i <;> unfold_instr at h hr <;>
+      first
+        | (simp [isMemType] at h; done)
+        | (simp only [Proofs.Mvp4.isRegisterChange_eq, pure, Except.pure, Proofs.Mvp4.ite_ok, Proofs.Mvp4.ite_pair, ite_self, bind, Except.bind, throw, throwThe, MonadExceptOf.throw] at hr
+           (repeat' split at hr) <;> first | (injection hr with hr; subst hr; rfl) | (exact absurd hr (by simp)))
+  · cases i <;> unfold_instr at h hr ⊢ <;>
+      first
+        | (intro _; rfl)
+        | (simp [isMemType, Gen.InstructionType.IsBranch, Gen.InstructionType.IsUnconditionalBranch, Gen.InstructionType.IsConditionalBranch] at h; done)
+        | (simp only [Proofs.Mvp4.isRegisterChange_eq, pure, Except.pure, Proofs.Mvp4.ite_ok, Proofs.Mvp4.ite_pair, ite_self, bind, Except.bind, throw, throwThe, MonadExceptOf.throw] at hr
+           (repeat' split at hr) <;> first | (injection hr with hr; subst hr; intro hc; cases hc) | (exact absurd hr (by simp)))
+
 /-! ### the scoreboards -/
 
 theorem get1_incRegs (l : List Reg) : ∀ (m : GoMap Reg Int) (r : Reg),
@@ -312,6 +343,92 @@ theorem Back.execute {app : App} {ctx : Model.Context} {W : List ExecCtx} {x : R
     rw [hrun] at he
     obtain ⟨c, hc⟩ := Proofs.Mvp4.stepTail_err (app := app) (a := a) he
     exact ⟨c, by rw [hstep, hc]⟩
+
+/-- `Back.execute` for programs that may `ret`: a result with `Return` set is the unpipelined machine's `ret` -/
+theorem Back.executeR {app : App} {ctx : Model.Context} {W : List ExecCtx} {x : Runner} {X : List Runner} {a : Arch} {n0 : Nat}
+    (hb : Back ctx W (x :: X) a) (hsm : app.instrs.length < 250) (hpc : a.pc = pcOf n0) (hx : RunnerOk app x n0)
+    (hsl : slrInstr x.instr = true) (hnf : fwdOf x.instr = {}) :
+    (∀ e, x.instr.run ctx app.labels x.pc [] 0#32 = .ok e → e.Return = false →
+      ∃ a', (∃ c, stepArch Proofs.Mvp4.dc app a = .next a' c) ∧ a'.pc = pcOf (n0 + 1) ∧ Back ctx (W ++ [ecOf x e]) X a' ∧
+        e.MemoryChange = false ∧ e.PcChange = false) ∧
+    (∀ e, x.instr.run ctx app.labels x.pc [] 0#32 = .ok e → e.Return = true →
+      (∃ c, stepArch Proofs.Mvp4.dc app a = .halt .ret c) ∧ (x.instr.instructionType == Gen.InstructionType.Ret) = true) ∧
+    (∀ msg, x.instr.run ctx app.labels x.pc [] 0#32 = .error (.err msg) → ∃ c, stepArch Proofs.Mvp4.dc app a = .halt .err c) := by
+  have hn0 : n0 < app.instrs.length := by
+    rcases Nat.lt_or_ge n0 app.instrs.length with h | h
+    · exact h
+    · have := hx.2; rw [List.getElem?_eq_none h] at this; cases this
+  have hrun : x.instr.run ctx app.labels x.pc [] 0#32 = x.instr.run a.ctx app.labels a.pc [] 0#32 := by
+    rw [hpc, ← hx.1]
+    exact Proofs.Mvp4.run_congr x.instr hnf hb.sameRegs app.labels x.pc [] 0#32
+  have hstep : stepArch Proofs.Mvp4.dc app a = Proofs.Mvp4.stepTail app a x.instr [] := by
+    apply Proofs.Mvp4.stepArch_run
+    · rw [hpc]; exact instrAt4_pcOf app n0 (by omega) x.instr hx.2
+    · rw [slr_memoryRead x.instr hsl]; rfl
+  obtain ⟨ex, hex⟩ := Proofs.Refine.cycles_ok x.instr.instructionType
+  refine ⟨?_, ?_, ?_⟩
+  · intro e he hret
+    obtain ⟨hmc, hpcc, _⟩ := slr_run x.instr hsl ctx app.labels x.pc [] 0#32 e he
+    have hshape := Proofs.Mvp4.run_shape x.instr ctx app.labels x.pc [] 0#32 e he
+    rw [hrun] at he
+    have hnext : Proofs.Mvp4.nextPc a e = pcOf (n0 + 1) := by
+      simp only [Proofs.Mvp4.nextPc, hpcc, Bool.false_eq_true, if_false, hpc, pcOf_succ]
+    have hcommon : ∀ a' : Arch, a'.pc = pcOf (n0 + 1) →
+        a'.ctx.Registers = applyW [ecOf x e] a.ctx.Registers → a'.ctx.Memory = a.ctx.Memory → a'.ctx.rat = false →
+        a'.ctx.Transaction.entries = [] → Back ctx (W ++ [ecOf x e]) X a' := by
+      intro a' _ hr hm hrat htx
+      refine ⟨by rw [hr, hb.regs, applyW_append], hm.trans hb.mem, hb.ratS, hb.txS, hrat, htx, ?_, ?_, ?_, ?_, ?_⟩
+      · intro ec hec hrc
+        rcases List.mem_append.mp hec with hec | hec
+        · exact hb.ws ec hec hrc
+        · simp only [List.mem_singleton] at hec; subst hec
+          simp only [ecOf] at hrc ⊢
+          rw [hshape.wregs, hrc]; simp
+      · intro reg hne
+        have := hb.sb reg hne
+        simp only [cntW, cntX, List.map_append, List.sum_append, List.map_cons, List.map_nil, List.sum_cons, List.sum_nil,
+          ecOf] at this ⊢
+        omega
+      · intro y hy reg hreg hne ec hec
+        rcases List.mem_append.mp hec with hec | hec
+        · exact hb.nr1 y (List.mem_cons_of_mem _ hy) reg hreg hne ec hec
+        · simp only [List.mem_singleton] at hec; subst hec
+          have := (List.pairwise_cons.mp hb.nr2).1 y hy reg hreg hne
+          exact this
+      · exact (List.pairwise_cons.mp hb.nr2).2
+      · intro ec hec
+        rcases List.mem_append.mp hec with hec | hec
+        · exact hb.nomem ec hec
+        · simp only [List.mem_singleton] at hec; subst hec; exact hmc
+    cases hrc : e.RegisterChange with
+    | true =>
+      obtain ⟨c, hc⟩ := Proofs.Mvp4.stepTail_reg (app := app) (a := a) he hex hret hrc
+      refine ⟨_, ⟨c, by rw [hstep, hc]⟩, hnext, ?_, hmc, hpcc⟩
+      exact hcommon _ hnext (by simp only [Model.Seq.writeRegister, applyW, ecOf, hrc, if_true]) rfl hb.ratA hb.txA
+    | false =>
+      obtain ⟨c, hc⟩ := Proofs.Mvp4.stepTail_plain (app := app) (a := a) he hex hret hrc hmc
+      refine ⟨_, ⟨c, by rw [hstep, hc]⟩, hnext, ?_, hmc, hpcc⟩
+      exact hcommon _ hnext (by simp only [applyW, ecOf, hrc, Bool.false_eq_true, if_false]) rfl hb.ratA hb.txA
+  · intro e he hret
+    obtain ⟨_, _, hty⟩ := slr_run x.instr hsl ctx app.labels x.pc [] 0#32 e he
+    rw [hrun] at he
+    obtain ⟨c, hc⟩ := Proofs.Mvp4.stepTail_ret (app := app) (a := a) he hex hret
+    exact ⟨⟨c, by rw [hstep, hc]⟩, hty hret⟩
+  · intro msg he
+    rw [hrun] at he
+    obtain ⟨c, hc⟩ := Proofs.Mvp4.stepTail_err (app := app) (a := a) he
+    exact ⟨c, by rw [hstep, hc]⟩
+
+/-- the oldest issued runner leaves without a result (it was a `ret`) -/
+theorem Back.dropHead {ctx : Model.Context} {W : List ExecCtx} {x : Runner} {X : List Runner} {a : Arch}
+    (hb : Back ctx W (x :: X) a) : Back ctx W X a := by
+  refine ⟨hb.regs, hb.mem, hb.ratS, hb.txS, hb.ratA, hb.txA, hb.ws, ?_,
+    fun y hy => hb.nr1 y (List.mem_cons_of_mem _ hy), (List.pairwise_cons.mp hb.nr2).2, hb.nomem⟩
+  intro reg hne
+  have := hb.sb reg hne
+  simp only [cntX, List.map_cons, List.sum_cons] at this ⊢
+  omega
+
 
 /-- a write unit takes the oldest result from the write bus -/
 theorem Back.writeback {ctx : Model.Context} {ec : ExecCtx} {W : List ExecCtx} {X : List Runner} {a : Arch}
